@@ -1,4 +1,5 @@
 import N0Verif.Proofs.XPathStore
+import N0Verif.Proofs.XPathHidden
 /-!
 # C02 — assigning through an xpath to an existing node changes exactly that node
 
@@ -111,5 +112,38 @@ example : ValidOps exTree [([.key ['a'], .key ['b'], .idx 1, .idx 0], .int 7), (
 example : (runSets 20 exTree [([.key ['a'], .key ['b'], .idx 1, .idx 0], .int 7), ([.key ['k']], .list .plain [])]).1
     = .dict .n0 [(['a'], .dict .plain [(['b'], .list .plain [.int 1, .list .n0 [.int 7, .none]])]),
                  (['k'], .list .plain [])] := by decide
+
+/-- **C02 (hidden list).**  Lookup reads a value that is not a list as the list of this one item (`d['a[0]']`,
+`d['a[-1]']`, `d['a[last()]']` are `d['a']`), so these spellings address the existing node itself: `d[xpath] = v` with
+the index `e` denoting `0` or `-1` (in any spelling: `0`, `-1`, `last()`, `0+0`, …) on the single value `old` of `name`
+replaces exactly that slot and raises nothing (fix C03-e; before, the write went into a temporary list and was lost). -/
+theorem C02_set_hidden_list (cls : Cls) (kvs : List (Str × Val)) (q : Pos) (kcls : Cls) (nkvs : List (Str × Val))
+    (name : Str) (old : Val) (e : IdxSp) (v : Val) (fuel : Nat)
+    (hp : PlainPos q) (hget : getAt (.dict cls kvs) q = some (.dict kcls nkvs)) (hn : PlainKey name)
+    (hl : lookup name nkvs = some old) (hs : isList old = false) (he : e.val = 0 ∨ e.val = -1)
+    (hf : fuel ≥ 2 * q.length + 2) :
+    ∃ t', setAt (.dict cls kvs) (q ++ [.key name]) v = some t' ∧
+      setItem fuel (.dict cls kvs) (slash ++ renderPos q ++ slash ++ (name ++ bracket e.text)) v = (t', .ok ()) := by
+  have hP : getAt (.dict cls kvs) (q ++ [Seg.key name]) = some old := by
+    rw [getAt_snoc, hget]; simp [child, hl]
+  obtain ⟨t', ht'⟩ := setAt_isSome (q ++ [.key name]) _ old v hP
+  exact ⟨t', ht', setItem_hidden_replace cls kvs q kcls nkvs name old e v t' fuel hp hget hn hl hs he ht' hf⟩
+
+/-- the former finding C02-a: `d['a[0]'] = 'V'` (and `[-1]`, `[last()]`) on `{a: 1}` replaces `a`, and `d['a[0]']` is
+`'V'` afterwards; a single value that is an element of a list (`a[0][0]` on `{a: [5]}`) likewise -/
+theorem C02_set_hidden_list_ok :
+    setItem 40 (.dict .n0 [(['a'], .int 1)]) ['a', '[', '0', ']'] (.str ['V']) = (.dict .n0 [(['a'], .str ['V'])], .ok ()) ∧
+    (getItem 40 (.dict .n0 [(['a'], .str ['V'])]) ['a', '[', '0', ']']).2 = .ok (.str ['V']) ∧
+    setItem 40 (.dict .n0 [(['a'], .int 1)]) ['a', '[', '-', '1', ']'] (.str ['V']) = (.dict .n0 [(['a'], .str ['V'])], .ok ()) ∧
+    setItem 40 (.dict .n0 [(['a'], .int 1)]) ['a', '[', 'l', 'a', 's', 't', '(', ')', ']'] (.str ['V'])
+      = (.dict .n0 [(['a'], .str ['V'])], .ok ()) ∧
+    setItem 40 (.dict .n0 [(['a'], .list .n0 [.int 5])]) ['a', '[', '0', ']', '[', '0', ']'] (.str ['V'])
+      = (.dict .n0 [(['a'], .list .n0 [.str ['V']])], .ok ()) := by
+  decide
+/-- … and through the theorem: `d['//k[last()]'] = 7` on `exTree` (`k` is the single value `True`) -/
+example : ∃ t', setAt exTree [.key ['k']] (.int 7) = some t' ∧
+    setItem 40 exTree ['/', '/', 'k', '[', 'l', 'a', 's', 't', '(', ')', ']'] (.int 7) = (t', .ok ()) :=
+  C02_set_hidden_list .n0 _ [] .n0 _ ['k'] (.bool true) .last (.int 7) 40 trivial rfl ⟨by simp, by decide, by simp⟩ (by decide) rfl
+    (Or.inr rfl) (by decide)
 
 end N0.C02
